@@ -130,7 +130,72 @@ $SIGMA 0.02
 $ESTIMATION METHOD=1 INTER
 """, "syn_des.csv", None),
 }
-SYN_DIR = None  # set by the parent (write_synthetic) before forking
+SYNTHETIC["syn_funcs"] = ("""$PROBLEM every function the NM-TRAN expression reader produces
+$INPUT ID TIME DV WGT
+$DATA syn_funcs.csv IGNORE=@
+$PRED
+FEXP = EXP(THETA(1))
+FPEXP = PEXP(THETA(1))
+FLOG = LOG(WGT)
+FPLOG = PLOG(WGT)
+FLOG10 = LOG10(WGT)
+FPLOG10 = PLOG10(WGT)
+FSQRT = SQRT(WGT)
+FPSQRT = PSQRT(WGT)
+FSIN = SIN(TIME)
+FCOS = COS(TIME)
+FTAN = TAN(TIME/10)
+FASIN = ASIN(THETA(2))
+FACOS = ACOS(THETA(2))
+FATAN = ATAN(THETA(2))
+FABS = ABS(THETA(1) - 3)
+FINT = INT(WGT/7)
+FMOD = MOD(WGT, 3)
+FGAMLN = GAMLN(DV + 1)
+FPHI = PHI(THETA(2))
+FPDZ = PDZ(WGT)
+FPZR = PZR(THETA(1))
+FPNP = PNP(THETA(1))
+FPHE = PHE(THETA(1))
+FPNG = PNG(THETA(1))
+IF (WGT.GT.60.AND.TIME.LE.2) THEN
+  FIF = 1
+ELSE
+  FIF = WGT**2
+ENDIF
+IPRED = THETA(1)*EXP(ETA(1)) + FIF*0
+Y = IPRED + EPS(1)
+$THETA (0,1) ; POP_A
+$THETA (0,0.5,1) ; POP_B
+$OMEGA 0.1
+$SIGMA 0.1
+$ESTIMATION METHOD=1 INTER
+""", "syn_funcs.csv", """ID,TIME,DV,WGT
+1,0,2,70
+1,1,3,70
+1,3,1,70
+2,0,0,55
+2,1,4,55
+2,2.5,2,55
+""")
+SYNTHETIC["syn_cov"] = ("""$PROBLEM degenerate covariates: constant for most, inverse, all equal, binary
+$INPUT ID TIME AMT WGT APGR DV NCOMED FREE CONST BIN
+$DATA syn_cov.csv IGNORE=@
+$SUBROUTINES ADVAN1 TRANS2
+$PK
+CL = THETA(1)*EXP(ETA(1))
+V = THETA(2)*EXP(ETA(2))
+S1 = V
+$ERROR
+Y = F + F*EPS(1)
+$THETA (0,0.005) ; POP_CL
+$THETA (0,1.5) ; POP_V
+$OMEGA 0.1
+$OMEGA 0.1
+$SIGMA 0.02
+$ESTIMATION METHOD=1 INTER
+""", "syn_cov.csv", "cov")
+SYN_DIR = None  # set by the parent (write_synthetic) before forking; children of C12 get it through VERIF_SYN_DIR
 
 
 def write_synthetic(d):
@@ -139,15 +204,23 @@ def write_synthetic(d):
     d.mkdir(parents=True, exist_ok=True)
     for key, (code, dname, data) in SYNTHETIC.items():
         (d / f"{key}.mod").write_text(code)
-        if data is None:
+        if data is None or data == "cov":
             import pandas as pd
 
             src = pd.read_csv(core.REPO / "tests/testdata/nonmem/pheno.dta", sep=r"\s+", engine="python")
-            src = src[["ID", "TIME", "AMT", "WGT", "APGR", "DV"]].head(60)
+            src = src[["ID", "TIME", "AMT", "WGT", "APGR", "DV"]].head(60 if data is None else 200)
+            if data == "cov":
+                ids = sorted(src["ID"].unique())
+                ncomed = {i: (0 if k % 3 else 1 + k % 3) for k, i in enumerate(ids)}  # 0 for two thirds of the individuals
+                src["NCOMED"] = src["ID"].map(ncomed).astype(float)
+                src["FREE"] = 3.0 - src["NCOMED"]          # median equals the maximum
+                src["CONST"] = 1.0                          # the same for everybody
+                src["BIN"] = (src["ID"] % 2).astype(float)  # binary
             src.to_csv(d / dname, index=False)
         else:
             (d / dname).write_text(data)
     SYN_DIR = d
+    os.environ["VERIF_SYN_DIR"] = str(d)
     return d
 
 
@@ -727,9 +800,10 @@ def build_base(key: str):
     if key in SYNTHETIC:
         from pharmpy.modeling import read_model
 
-        if SYN_DIR is None:
+        d = SYN_DIR or (os.environ.get("VERIF_SYN_DIR") and __import__("pathlib").Path(os.environ["VERIF_SYN_DIR"]))
+        if not d:
             raise core.MachineryError("synthetic corpus was not written")
-        return read_model(SYN_DIR / f"{key}.mod")
+        return read_model(d / f"{key}.mod")
     ckey, chain = TRANSFORMED[key]
     m = read_corpus(ckey)
     for fname, kw in chain:
